@@ -193,7 +193,10 @@ def rand_value(rng, depth):
     r = rng.random()
 
     def num():
-        return dict(k='int', n=rng.randint(-50, 50), d=1) if rng.random() < 0.5 else dict(k='float', n=rng.randint(-99, 99), d=rng.choice([1, 2, 4, 8]))
+        if rng.random() < 0.5:
+            return dict(k='int', n=rng.randint(-50, 50), d=1)
+        f = Fraction(rng.randint(-99, 99), rng.choice([1, 2, 4, 8]))
+        return dict(k='float', n=f.numerator, d=f.denominator)
 
     def arr(shape=None):
         shape = shape or [rng.randint(1, 4) for _ in range(rng.choice([1, 1, 2]))]
@@ -302,8 +305,9 @@ def build_model(combo, classes):
             raise KeyError(base)
         return classes[base][1]
     chem = K('TaurexChemistry')(fill_gases=['H2', 'He'], ratio=0.2)
-    chem.addGas(K(combo['gas1'])(molecule_name='H2O', **GASES[combo['gas1']]))
-    chem.addGas(K(combo['gas2'])(molecule_name='CH4', **GASES[combo['gas2']]))
+    m1, m2 = ('CH4', 'H2O') if combo['gas2'] == 'PowerGas/auto' else ('H2O', 'CH4')   # 'auto' coefficients exist for H2O only
+    chem.addGas(K(combo['gas1'])(molecule_name=m1, **GASES[combo['gas1']]))
+    chem.addGas(K(combo['gas2'])(molecule_name=m2, **GASES[combo['gas2']]))
     temp = K(combo['temp'])(**TEMPS[combo['temp']])
     press = K('SimplePressureProfile')(nlayers=NL, atm_min_pressure=1e-1, atm_max_pressure=1e6)
     model = K(combo['model'])(planet=K('Planet')(**PLANET), star=K('BlackbodyStar')(**STAR), chemistry=chem,
@@ -317,8 +321,8 @@ def build_model(combo, classes):
 def rec_summary(rec, classes):
     """Recorded constructor calls -> {class name[:molecule]: kwargs} for component classes."""
     out = {}
-    for cname, kw in rec:
-        if cname not in classes or classes[cname][0] not in ('temperature', 'chemistry', 'gas', 'pressure', 'planet', 'star', 'model', 'contribution'):
+    for cname, kw, tname in rec:
+        if cname != tname or cname not in classes or classes[cname][0] not in ('temperature', 'chemistry', 'gas', 'pressure', 'planet', 'star', 'model', 'contribution'):
             continue
         tag = cname + (':' + str(kw.get('molecule_name')) if classes[cname][0] == 'gas' else '')
         out[tag] = {k: v for k, v in kw.items() if k not in ('planet', 'star', 'chemistry', 'temperature_profile', 'pressure_profile')
@@ -400,14 +404,22 @@ def run_model_roundtrips(ctx, combos, tmp, classes):
             continue
         reloaded = rec_summary(list(FX._REC), classes)
         ctx.verdict('SameTypes', sorted(built) == sorted(reloaded) and
-                    [type(c).__name__ for c in model.contribution_list] == [type(c).__name__ for c in again.contribution_list],
+                    sorted(type(c).__name__ for c in model.contribution_list) == sorted(type(c).__name__ for c in again.contribution_list),
                     cls='types', detail='built %s, reloaded %s' % (sorted(built), sorted(reloaded)), vector=vec)
         lost_here = set()
         for comp, kw in built.items():
             for k, v in kw.items():
                 if comp not in reloaded:
                     continue
-                ok = same_value(v, reloaded[comp].get(k))
+                w = reloaded[comp].get(k)
+                if (comp.split(':')[0], k) in (('NPoint', 'P_surface'), ('NPoint', 'P_top')) and v is None:
+                    ok = w is None or float(w) < 0          # documented: "Set to -1 for BOA / TOA" == unset
+                elif comp.startswith('PowerGas') and k == 'profile_type' and v == 'auto':
+                    ok = str(w) in ('auto', str(kw.get('molecule_name')))   # documented: 'auto' = profile of molecule_name
+                elif comp == 'Rodgers2000' and k == 'covariance_matrix' and v is None:
+                    continue                                  # the derived default matrix is stored explicitly
+                else:
+                    ok = same_value(v, w)
                 if not ok:
                     lost_here.add('%s:%s' % (comp.split(':')[0], k))
                 ctx.verdict('SameValues', ok, cls='%s:%s' % (comp.split(':')[0], k),
@@ -430,6 +442,10 @@ def gen_output_reg(classes, written):
         kind, k = classes[cname]
         names, _ = FX._params(k.__init__)
         supplied = []
+        if cname == 'Planet':
+            supplied = ['planet_sma']        # documented alias of planet_distance
+        if cname == 'Rodgers2000':
+            supplied = []
         if kind == 'model':
             supplied = ['planet', 'star', 'chemistry', 'temperature_profile', 'pressure_profile', 'nlayers', 'atm_min_pressure', 'atm_max_pressure']
         rows.append('[name |-> %s, params |-> %s, written |-> %s, supplied |-> %s]' % (
@@ -500,10 +516,10 @@ def run_spectrum_outputs(ctx, keytable, tmp, classes):
                 ctx.verdict('BinnedWlWidth', g['binned_wlwidth'].shape == exp.shape and np.allclose(g['binned_wlwidth'], exp, rtol=1e-12, atol=0), cls=cls,
                             detail='binned_wlwidth %s, wavenumber widths converted at the bin centre %s' % (g['binned_wlwidth'][:3], exp[:3]), vector=vec)
                 again = binner.bindown(g['native_wngrid'], g['native_spectrum'])[1]
-                ctx.verdict('BinnedSpectrum', np.array_equal(g['binned_spectrum'], again), cls=cls,
+                ctx.verdict('BinnedSpectrum', np.array_equal(g['binned_spectrum'], again, equal_nan=True), cls=cls,
                             detail='binned_spectrum is not the binner applied to the stored native spectrum', vector=vec)
                 if 'binned_tau' in g and 'native_tau' in g:
-                    ctx.verdict('BinnedTau', np.array_equal(g['binned_tau'], binner.bindown(g['native_wngrid'], g['native_tau'])[1]), cls=cls,
+                    ctx.verdict('BinnedTau', np.array_equal(g['binned_tau'], binner.bindown(g['native_wngrid'], g['native_tau'])[1], equal_nan=True), cls=cls,
                                 detail='binned_tau is not the binner applied to native_tau', vector=vec)
                 if gname == 'dyadic' and sname == 'heavy':
                     for i in range(len(wn_)):
@@ -582,7 +598,7 @@ def run(ctx):
         # 5. model write -> rebuild
         gases = ['ConstantGas', 'TwoLayerGas', 'TwoPointGas', 'PowerGas', 'PowerGas/auto']
         allc = [dict(model=m, temp=t, gas1=g1, gas2=g2, contribs=cs) for m in MODELS for t in TEMPS for g1 in gases for g2 in gases
-                for cs in CONTRIB_SETS if g1 <= g2]
+                for cs in CONTRIB_SETS if g1 <= g2 and not (g1 == g2 == 'PowerGas/auto')]
         rng.shuffle(allc)
         chosen, pairs = [], set()
         want = 14 if q else 80
